@@ -65,7 +65,13 @@ func replayCase(raw json.RawMessage) error {
 			_, err := enumerate(c, nil, 1<<30)
 			return err
 		}
-		return onePoint(c)
+		// which of several equal-work stored branches the node re-applies first depends on map order inside
+		// gocoin: give a recorded point a few chances to show
+		var err error
+		for i := 0; i < 6 && err == nil; i++ {
+			err = onePoint(c)
+		}
+		return err
 	}
 }
 
@@ -174,6 +180,8 @@ type verdict struct {
 	InFlight  int    `json:"in_flight"`
 	Closed    bool   `json:"closed"`
 	Stage     int    `json:"stage"` // 1 reopen, 2 tip identity, 3 unspent set at the recovered tip, 4 after feeding the rest
+	Discarded int    `json:"discarded"` // stored blocks that failed to connect while the node re-applied them at start-up
+	StuckBelow bool  `json:"stuck_below"` // stage 4 ended on a valid block of the history that is not the most-work tip
 }
 
 func readLog(fn string) (inflight int, closed bool, diverged string) {
@@ -269,6 +277,10 @@ func recoverAndCheck(c Case, dir, logfn string) (res verdict) {
 		if n.Idx.Hash == h2 {
 			tip2 = n
 		}
+	}
+	res.Discarded = len(node.RecoveryDiscarded)
+	if tip2 != nil && ms.Valid(tip2) && tip2.Idx.InvWork.Cmp(ms.Tip.Idx.InvWork) < 0 {
+		res.StuckBelow = true
 	}
 	if tip2 == nil || !ms.Valid(tip2) || tip2.Idx.InvWork.Cmp(ms.Tip.Idx.InvWork) != 0 {
 		res.Err = fmt.Sprintf("after feeding the remaining blocks the tip is %x (height %d); the uninterrupted run ends at %s", h2[:6], height2, ms.Tip.Describe())
@@ -504,6 +516,18 @@ func inF13Class(c Case) bool {
 	return false
 }
 
+// hasInvalidBlock: the workload delivers a block that fails when it is connected (class of F26: at start-up the
+// client re-applies only the path to the farthest stored block; if a block on it fails to connect it carries on
+// from where it is and leaves other stored, valid branches unconnected until a new block arrives).
+func hasInvalidBlock(c Case) bool {
+	for _, op := range c.Sim.Ops {
+		if op.Kind == "block" && op.Viol != "" {
+			return true
+		}
+	}
+	return false
+}
+
 // enumerate runs the workload once with a trace and then once per crash point (at most limit points,
 // spread evenly), returning the first violation as an error whose case carries the crash point.
 func enumerate(c Case, d *pbt.Direct, limit int) (fail *Case, err error) {
@@ -512,6 +536,12 @@ func enumerate(c Case, d *pbt.Direct, limit int) (fail *Case, err error) {
 		return nil, fmt.Errorf("infrastructure: %v", tr.err)
 	}
 	if tr.viol != "" {
+		if hasInvalidBlock(c) && tr.v.Stage == 4 && tr.v.Discarded > 0 && tr.v.StuckBelow && pbt.FindingOpen("F26-recovery-stops-at-failed-branch") {
+			if d != nil {
+				d.Excluded("F26-recovery-stops-at-failed-branch")
+			}
+			return nil, nil
+		}
 		cc := c
 		return &cc, fmt.Errorf("uninterrupted run + restart: %s", tr.viol)
 	}
@@ -559,6 +589,12 @@ func enumerate(c Case, d *pbt.Direct, limit int) (fail *Case, err error) {
 			d.Eval("point/"+name, true, key+"/"+pt, map[string]any{"workload": key, "crash_at": pt, "ops": len(c.Sim.Ops), "recovered_height": r.v.TipHeight, "in_flight_step": r.v.InFlight})
 		}
 		if r.viol != "" {
+			if hasInvalidBlock(c) && r.v.Stage == 4 && r.v.Discarded > 0 && r.v.StuckBelow && pbt.FindingOpen("F26-recovery-stops-at-failed-branch") {
+				if d != nil {
+					d.Excluded("F26-recovery-stops-at-failed-branch")
+				}
+				continue
+			}
 			if inF13Class(c) && firstUndo >= 0 && order[pt] > firstUndo && pbt.FindingOpen("F13-undo-files-by-height") {
 				if d != nil {
 					d.Excluded("F13-undo-files-by-height")
